@@ -127,7 +127,7 @@ def hostile_rotations(rng, n, a, b, width, extra=4):
 
 # ------------------------------------------------------------------ instances of a structure pattern
 
-_TOK = re.compile(r"[A-Za-z][*+]\??|[A-Za-z]|[()]")      # (a lower-case letter in a pattern is the same nucleotide code: patterns are case-insensitive)
+_TOK = re.compile(r"[A-Za-z]\{\d+(?:,\d*)?\}\??|[A-Za-z][*+]\??|[A-Za-z]|[()]")      # (a lower-case letter in a pattern is the same nucleotide code: patterns are case-insensitive)
 
 
 def instance(rng, pattern, run_max=12, run_min=0, groups=None, run_filter=None):
@@ -153,6 +153,13 @@ def instance(rng, pattern, run_max=12, run_min=0, groups=None, run_filter=None):
             stack.pop()
             continue
         if skip:
+            continue
+        if len(t) > 1 and t[1] == "{":
+            # a counted run (`N{4}`, `N{2,6}`, `N{3,}`): another spelling of that many letters
+            lo, _, hi = t[2:t.index("}")].partition(",")
+            lo = int(lo)
+            hi = lo if not _ else (int(hi) if hi else max(lo, run_max))
+            out.append("".join(rng.choice(IUPAC[t[0].upper()]) for _ in range(rng.randint(lo, max(lo, hi)))))
             continue
         if len(t) > 1 and run_filter is not None:
             lo = max(run_min, 1 if t[1] == "+" else 0)
